@@ -306,6 +306,26 @@ impl<'a, 'src> Resolver<'a, 'src> {
       }
     }
 
+    self.declare_global(name)
+  }
+
+  /// resolve a symbol of the global module whatever the program has
+  /// declared under the same name
+  fn resolve_global(&mut self, name: &Token<'src>) {
+    // the module can only hold its own copy of the global symbol if
+    // the program does not use the name itself
+    let shadowed = self
+      .tables
+      .iter()
+      .any(|table| table.table.get(name.str()).is_some());
+
+    if !shadowed {
+      self.declare_global(name)
+    }
+  }
+
+  /// declare a symbol of the global module in the module scope
+  fn declare_global(&mut self, name: &Token<'src>) {
     // Check if symbol if found in the global scope if it is
     // Add it as a global symbol. If not throw an error
     if self
@@ -502,7 +522,7 @@ impl<'a, 'src> Resolver<'a, 'src> {
       self.resolve_variable(&super_class.type_ref.name);
       super_class.type_ref.name.span()
     } else {
-      self.resolve_variable(&Token::new(
+      self.resolve_global(&Token::new(
         TokenKind::Identifier,
         Lexeme::Slice(OBJECT),
         class.name.start(),
